@@ -154,9 +154,9 @@ func makeTraffic(name string, horizon time.Duration) traffic {
 
 // A deviation from the fault-free default.
 type deviation struct {
-	Tx   string `json:"tx"`   // transaction identity, e.g. "Refresh#3"
-	Kind string `json:"kind"` // dropreq | dropresp | dup | delay
-	K    int    `json:"k"`    // dropreq: the first K transmissions; others: the response to transmission K
+	Tx   string  `json:"tx"`             // transaction identity, e.g. "Refresh#3"
+	Kind string  `json:"kind"`           // dropreq | dropresp | dup | delay
+	K    int     `json:"k"`              // dropreq: the first K transmissions; others: the response to transmission K
 	AtS  float64 `json:"at_s,omitempty"` // first transmission of Tx in the run the deviation was derived from (informational)
 }
 
@@ -208,7 +208,6 @@ type filterConn struct {
 	devs    []deviation
 	applied []int
 	pending []simnet.Dgram
-	touched int // non-transaction datagrams the filter would have altered (must stay 0)
 }
 
 func newFilter(s *simnet.UDPSock, srv *net.UDPAddr, start time.Time, devs []deviation) *filterConn {
@@ -467,16 +466,16 @@ func (l *recLogger) rec(level, msg string) {
 	}
 	l.f.mu.Unlock()
 }
-func (l *recLogger) Trace(string)                  {}
-func (l *recLogger) Tracef(string, ...any)         {}
-func (l *recLogger) Debug(string)                  {}
-func (l *recLogger) Debugf(string, ...any)         {}
-func (l *recLogger) Info(string)                   {}
-func (l *recLogger) Infof(string, ...any)          {}
-func (l *recLogger) Warn(m string)                 { l.rec("WARN", m) }
-func (l *recLogger) Warnf(f string, a ...any)      { l.rec("WARN", fmt.Sprintf(f, a...)) }
-func (l *recLogger) Error(m string)                { l.rec("ERROR", m) }
-func (l *recLogger) Errorf(f string, a ...any)     { l.rec("ERROR", fmt.Sprintf(f, a...)) }
+func (l *recLogger) Trace(string)              {}
+func (l *recLogger) Tracef(string, ...any)     {}
+func (l *recLogger) Debug(string)              {}
+func (l *recLogger) Debugf(string, ...any)     {}
+func (l *recLogger) Info(string)               {}
+func (l *recLogger) Infof(string, ...any)      {}
+func (l *recLogger) Warn(m string)             { l.rec("WARN", m) }
+func (l *recLogger) Warnf(f string, a ...any)  { l.rec("WARN", fmt.Sprintf(f, a...)) }
+func (l *recLogger) Error(m string)            { l.rec("ERROR", m) }
+func (l *recLogger) Errorf(f string, a ...any) { l.rec("ERROR", fmt.Sprintf(f, a...)) }
 
 // ---------------------------------------------------------------- one run
 
@@ -491,14 +490,14 @@ type txRec struct {
 type finding struct{ Sig, Detail string }
 
 type runResult struct {
-	Txs        []txRec
-	Applied    []int
-	Findings   []finding
-	Outcome    string // "delivered" | "missing@<minute>" | "error:<what>"
-	SentC2P    int
-	SentP2C    int
-	Warns      []string
-	Harness    string // non-empty: the run itself is unusable (harness problem, not a verdict)
+	Txs                      []txRec
+	Applied                  []int
+	Findings                 []finding
+	Outcome                  string // "delivered" | "missing@<minute>" | "error:<what>"
+	SentC2P                  int
+	SentP2C                  int
+	Warns                    []string
+	Harness                  string // non-empty: the run itself is unusable (harness problem, not a verdict)
 	CountAtClose, CountLater int
 }
 
@@ -827,6 +826,7 @@ func runOnce(t *testing.T, sc scenario) (res *runResult) { //nolint:gocognit,cyc
 				add("client-log:"+k, l)
 			}
 		}
+		res.Findings = perFamily(res.Findings)
 		if res.Outcome == "" {
 			res.Outcome = "delivered"
 			for _, f := range res.Findings {
@@ -846,6 +846,49 @@ func runOnce(t *testing.T, sc scenario) (res *runResult) { //nolint:gocognit,cyc
 	})
 
 	return res
+}
+
+// perFamily keeps one finding per family of symptoms (a broken refresh shows up as a failed transaction, a log
+// line, a write error, lost probes in both directions and a missing allocation at once): the most specific one.
+func perFamily(in []finding) []finding {
+	rank := func(sig string) (string, int) {
+		for i, p := range []string{"panic", "deadlock", "goroutine-leak"} {
+			if strings.HasPrefix(sig, p) {
+				return "fatal", i
+			}
+		}
+		for i, p := range []string{"allocate-failed", "transaction-unanswered", "client-log", "relayconn-write-error"} {
+			if strings.HasPrefix(sig, p) {
+				return "transaction", i
+			}
+		}
+		for i, p := range []string{"allocation-gone-before-close", "allocation-survives-close", "close-returned-error"} {
+			if strings.HasPrefix(sig, p) {
+				return "close", i
+			}
+		}
+
+		return "delivery", 0
+	}
+	best := map[string]int{}
+	for i, f := range in {
+		fam, r := rank(f.Sig)
+		if j, ok := best[fam]; ok {
+			if _, rj := rank(in[j].Sig); rj <= r {
+				continue
+			}
+		}
+		best[fam] = i
+	}
+	var out []finding
+	for i, f := range in {
+		fam, _ := rank(f.Sig)
+		if best[fam] == i {
+			out = append(out, f)
+		}
+	}
+
+	return out
 }
 
 // ---------------------------------------------------------------- enumeration
@@ -973,7 +1016,15 @@ func devKinds(devs []deviation) string {
 	return strings.Join(p, "+")
 }
 
-func judge(r *rep.Report, tl *tally, sc scenario, res *runResult, part string) {
+// judge files one run. Findings that the fault-free run of the same configuration x pattern shows as well are
+// filed once, under the fault-free run (after=none), not again under every schedule.
+func judge(r *rep.Report, tl *tally, sc scenario, res *runResult, part string, faultFree ...*runResult) {
+	inherited := map[string]bool{}
+	for _, b := range faultFree {
+		for _, f := range b.Findings {
+			inherited[f.Sig] = true
+		}
+	}
 	r.Evaluations++
 	after := devKinds(sc.Devs)
 	if res.Harness != "" {
@@ -992,6 +1043,9 @@ func judge(r *rep.Report, tl *tally, sc scenario, res *runResult, part string) {
 	}
 	tl.classes[fmt.Sprintf("%s cfg=%s traffic=%s %s => %s", part, sc.Cfg.Name, sc.Pattern, after, res.Outcome)]++
 	for _, f := range res.Findings {
+		if inherited[f.Sig] {
+			continue
+		}
 		sig := f.Sig
 		if part != "close" {
 			sig += ":after=" + after
@@ -1122,7 +1176,7 @@ func TestC14Faults(t *testing.T) {
 			s1.Devs = []deviation{d1}
 			rep.Current(s1)
 			r.Schedules++
-			judge(r, tl, s1, runOnce(t, s1), "faults")
+			judge(r, tl, s1, runOnce(t, s1), "faults", b)
 		}
 	}
 }
@@ -1188,7 +1242,7 @@ func TestC14Pairs(t *testing.T) { //nolint:gocognit,cyclop
 				s2.Devs = []deviation{d1, d2}
 				rep.Current(s2)
 				r.Schedules++
-				judge(r, tl, s2, runOnce(t, s2), "pairs")
+				judge(r, tl, s2, runOnce(t, s2), "pairs", b)
 			}
 		}
 	}
